@@ -23,7 +23,7 @@
 (***************************************************************************)
 EXTENDS Naturals, Sequences, FiniteSets, SequencesExt, TLC, TypeTable
 
-VARIABLES cfgv,       \* form-level facts: [lists, formname, omitid, iname, entity]
+VARIABLES cfgv,       \* form-level facts: [lists, formname, omitid, iname, entity, entlabel]
           stack,      \* Seq([ct, name, path])                      -- l.525
           tableList,  \* "none" | "armed" | <list name>             -- l.534
           nodes,      \* preorder sequence of created element records (all children arrays, flattened)
@@ -167,10 +167,13 @@ MetaNames == meta \o (IF cfgv.omitid THEN <<>> ELSE <<"instanceID">>)
                   \o (IF cfgv.iname THEN <<"instanceName">> ELSE <<>>)
                   \o (IF cfgv.entity THEN <<"entity">> ELSE <<>>)
 
+\* the entity declaration carries a label child when the entities sheet gives a label (entity_declaration.xml_instance)
 MetaNodes == IF Len(MetaNames) = 0 THEN <<>>
              ELSE <<Node(<<"meta">>, "group", "meta", 0, "group", FALSE, FALSE, "meta", <<>>)>>
                   \o [i \in 1..Len(MetaNames) |->
                         Node(<<"meta", MetaNames[i]>>, "q", "meta", 0, "calculate", FALSE, FALSE, MetaNames[i], <<>>)]
+                  \o (IF cfgv.entity /\ cfgv.entlabel
+                        THEN <<Node(<<"meta", "entity", "label">>, "q", "meta", 0, "calculate", FALSE, FALSE, "label", <<>>)>> ELSE <<>>)
 
 DupSibling(ns) == \E i, j \in 1..Len(ns) : i < j /\ Parent(ns[i].p) = Parent(ns[j].p) /\ ns[i].lname = ns[j].lname
 DupSection(ns) == \E i, j \in 1..Len(ns) : i < j /\ IsSection(ns[i]) /\ IsSection(ns[j])
